@@ -82,7 +82,7 @@ class Ctx:
 
     def sample(self, s, limit=6):
         with self.lock:
-            if len(self.samples) < limit:
+            if len(self.samples) < limit and s not in self.samples:
                 self.samples.append(s)
 
     def violate(self, signature, what, detail):
